@@ -319,9 +319,226 @@ theorem never_fatal_unless_closed (closed : Bool) (maps : Maps) (s : Senders) (d
     · split <;> simp
     · simp
 
-/-- The sort the model assumes is the one the source asks for (`Reverse(prefix_len)`). -/
+/-! ### From the builder's bind requests to the bound sockets (composition with C20) -/
+
+/-- Does the built-in wildcard of family `f` bind? -/
+def okOf (f : Fam) (ok4 ok6 : Bool) : Bool :=
+  match f with
+  | .v4 => ok4
+  | .v6 => ok6
+
+theorem boundOf_default_le (f : Fam) (l : List Cfg) :
+    ((boundOf f l).filter (·.isDefault)).length ≤ (l.filter (fun c => c.isDefault && c.fam == f)).length := by
+  induction l with
+  | nil => simp [boundOf]
+  | cons c cs ih =>
+    rw [boundOf_cons, List.filter_cons]
+    by_cases h1 : (c.bindOk && c.fam == f) = true
+    · simp only [h1, if_true, List.singleton_append, List.filter_cons]
+      have hfam : (c.fam == f) = true := by simp only [Bool.and_eq_true] at h1; exact h1.2
+      by_cases hd : c.isDefault = true
+      · simp only [hd, hfam, Bool.and_self, if_true, List.length_cons]; omega
+      · have : c.isDefault = false := by simpa using hd
+        simp only [this, Bool.false_eq_true, if_false, Bool.false_and]; exact ih
+    · rw [if_neg h1, List.nil_append]
+      split
+      · simp only [List.length_cons]; omega
+      · exact ih
+
+theorem mem_ipConfigs_builder (ok4 ok6 : Bool) (rs : List BReq) (c : Cfg) :
+    c ∈ ipConfigs (builderTransports ok4 ok6 rs) ↔
+      (∃ r ∈ rs, c = r.cfg) ∨ ∃ g, c = builtinCfg g (okOf g ok4 ok6) ∧ userDefault g rs = false := by
+  rw [ipConfigs_builder]
+  simp only [List.mem_append, List.mem_map]
+  constructor
+  · rintro ((h | h) | ⟨r, hr, rfl⟩)
+    · cases hu : userDefault .v4 rs <;> simp [hu] at h
+      exact Or.inr ⟨.v4, h, hu⟩
+    · cases hu : userDefault .v6 rs <;> simp [hu] at h
+      exact Or.inr ⟨.v6, h, hu⟩
+    · exact Or.inl ⟨r, hr, rfl⟩
+  · rintro (⟨r, hr, rfl⟩ | ⟨g, rfl, hu⟩)
+    · exact Or.inr ⟨r, hr, rfl⟩
+    · cases g
+      · left; left; simp [hu, okOf]
+      · left; right; simp [hu, okOf]
+
+/-- For a request list the builder accepts, `IpTransports::bind` never reports a duplicate
+default route: the only possible bind error is a required socket that cannot be bound. -/
+theorem accepted_never_dup (ok4 ok6 : Bool) (rs : List BReq)
+    (hacc : C20.accepts (rs.map (·.req)) = true) (f : Fam) :
+    transportsBind (builderTransports ok4 ok6 rs) ≠ .error (.dupDefault f) := by
+  intro h
+  have h2 := bind_dup _ f h
+  have h1 := boundOf_default_le f (ipConfigs (builderTransports ok4 ok6 rs))
+  rw [ipConfigs_builder] at h1 h2
+  rw [List.filter_append, List.filter_append, List.length_append, List.length_append] at h1
+  have hb4 : ((if userDefault .v4 rs then [] else [builtinCfg .v4 ok4]).filter
+      (fun c => c.isDefault && c.fam == f)).length = 0 := by
+    cases userDefault .v4 rs <;> simp [builtinCfg]
+  have hb6 : ((if userDefault .v6 rs then [] else [builtinCfg .v6 ok6]).filter
+      (fun c => c.isDefault && c.fam == f)).length = 0 := by
+    cases userDefault .v6 rs <;> simp [builtinCfg]
+  have hu : ((rs.map (·.cfg)).filter (fun c => c.isDefault && c.fam == f)).length ≤ 1 := by
+    cases f with
+    | v4 => exact accepted_user_defaults rs hacc .v4
+    | v6 => exact accepted_user_defaults rs hacc .v6
+  omega
+
+/-- **builder_to_sockets** — for every request list the builder accepts (C20 `accept_iff`), and
+whatever the OS answers to the individual binds: `Transports::bind` never fails for a duplicate
+default route, and when it succeeds the bound sockets of family `f` are exactly the bindable user
+sockets of that family plus the built-in wildcard (`0.0.0.0:0` / `[::]:0`, prefix 0, not a default
+route) unless a user default route of that family was requested; they are sorted longest prefix
+first, sockets of equal prefix length in configuration order (built-in first, then request order). -/
+theorem builder_to_sockets (ok4 ok6 : Bool) (rs : List BReq)
+    (hacc : C20.accepts (rs.map (·.req)) = true) :
+    (∀ f, transportsBind (builderTransports ok4 ok6 rs) ≠ .error (.dupDefault f)) ∧
+    ∀ b, transportsBind (builderTransports ok4 ok6 rs) = .ok b →
+      WF b ∧
+      (∀ f c, c ∈ b.list f ↔ (c.bindOk = true ∧ c.fam = f ∧
+        ((∃ r ∈ rs, c = r.cfg) ∨ (c = builtinCfg f (okOf f ok4 ok6) ∧ userDefault f rs = false)))) ∧
+      (∀ f p, (b.list f).filter (fun x => x.prefixLen == p) =
+        (boundOf f (ipConfigs (builderTransports ok4 ok6 rs))).filter (fun x => x.prefixLen == p)) := by
+  refine ⟨accepted_never_dup ok4 ok6 rs hacc, ?_⟩
+  intro b hb
+  obtain ⟨hwf, hmem, hstable, _⟩ := bind_sorting _ b hb
+  refine ⟨hwf, ?_, hstable⟩
+  intro f c
+  rw [hmem f c, mem_ipConfigs_builder]
+  constructor
+  · rintro ⟨hc, hok, hfam⟩
+    refine ⟨hok, hfam, ?_⟩
+    rcases hc with h | ⟨g, rfl, hu⟩
+    · exact Or.inl h
+    · have : g = f := by simpa [builtinCfg] using hfam
+      subst this
+      exact Or.inr ⟨rfl, hu⟩
+  · rintro ⟨hok, hfam, h | ⟨rfl, hu⟩⟩
+    · exact ⟨Or.inl h, hok, hfam⟩
+    · exact ⟨Or.inr ⟨f, rfl, hu⟩, hok, hfam⟩
+
+/-- Order independence: permuting the requests changes neither the verdict of the builder nor
+the set of bound sockets of either family (only the order among sockets of equal prefix length). -/
+theorem builder_sockets_perm (ok4 ok6 : Bool) (rs rs' : List BReq) (hp : rs.Perm rs')
+    (hacc : C20.accepts (rs.map (·.req)) = true) :
+    C20.accepts (rs'.map (·.req)) = true ∧
+    ∀ b b', transportsBind (builderTransports ok4 ok6 rs) = .ok b →
+      transportsBind (builderTransports ok4 ok6 rs') = .ok b' →
+      ∀ f c, c ∈ b.list f ↔ c ∈ b'.list f := by
+  have hacc' : C20.accepts (rs'.map (·.req)) = true := by
+    rw [← C20.perm_invariant (hp.map _)]; exact hacc
+  refine ⟨hacc', ?_⟩
+  intro b b' hb hb' f c
+  rw [((builder_to_sockets ok4 ok6 rs hacc).2 b hb).2.1 f c,
+    ((builder_to_sockets ok4 ok6 rs' hacc').2 b' hb').2.1 f c]
+  have hud : userDefault f rs = userDefault f rs' := by
+    unfold userDefault
+    rw [Bool.eq_iff_iff, List.any_eq_true, List.any_eq_true]
+    constructor <;> rintro ⟨x, hx, hxp⟩
+    · exact ⟨x, hp.mem_iff.mp hx, hxp⟩
+    · exact ⟨x, hp.mem_iff.mpr hx, hxp⟩
+  rw [hud]
+  constructor <;> rintro ⟨h1, h2, h3 | h3⟩
+  · exact ⟨h1, h2, Or.inl (by obtain ⟨r, hr, e⟩ := h3; exact ⟨r, hp.mem_iff.mp hr, e⟩)⟩
+  · exact ⟨h1, h2, Or.inr h3⟩
+  · exact ⟨h1, h2, Or.inl (by obtain ⟨r, hr, e⟩ := h3; exact ⟨r, hp.mem_iff.mpr hr, e⟩)⟩
+  · exact ⟨h1, h2, Or.inr h3⟩
+
+/-- **every_family_has_default_or_none** — what the routing theorems need is established by the
+bind of every accepted configuration: the result is well-formed (`WF`: sorted, one family per
+list, at most one default); the default-route socket of a family, if any, is the (unique) user
+socket requested as default route — never the built-in wildcard; there is none exactly when no
+bindable user default route of that family was requested; and whenever the built-in wildcard of
+the family is bound, or a user default route of the family is bound, no datagram of that family
+without source address is dropped for lack of a socket. -/
+theorem every_family_has_default_or_none (ok4 ok6 : Bool) (rs : List BReq)
+    (hacc : C20.accepts (rs.map (·.req)) = true) (b : Bound)
+    (hb : transportsBind (builderTransports ok4 ok6 rs) = .ok b) (f : Fam) :
+    WF b ∧
+    (∀ c, b.default f = some c → c.isDefault = true ∧ c.bindOk = true ∧ ∃ r ∈ rs, c = r.cfg) ∧
+    (b.default f = none ↔ ∀ r ∈ rs, ¬ (r.cfg.fam = f ∧ r.cfg.isDefault = true ∧ r.cfg.bindOk = true)) ∧
+    (((userDefault f rs = false ∧ okOf f ok4 ok6 = true) ∨
+        (∃ r ∈ rs, r.cfg.fam = f ∧ r.cfg.isDefault = true ∧ r.cfg.bindOk = true)) →
+      ∀ (dst : Ip) (scope : Nat), dst.fam = f → dst.val < 2 ^ f.bits → route b none dst scope ≠ none) := by
+  obtain ⟨hwf, hmem, _⟩ := (builder_to_sockets ok4 ok6 rs hacc).2 b hb
+  refine ⟨hwf, ?_, ?_, ?_⟩
+  · intro c hc
+    obtain ⟨hin, hdef⟩ := default_spec b f c hc
+    obtain ⟨hok, _, h | ⟨rfl, _⟩⟩ := (hmem f c).mp hin
+    · exact ⟨hdef, hok, h⟩
+    · simp [builtinCfg] at hdef
+  · constructor
+    · intro hnone r hr ⟨hfam, hdef, hok⟩
+      have hin : r.cfg ∈ b.list f := (hmem f r.cfg).mpr ⟨hok, hfam, Or.inl ⟨r, hr, rfl⟩⟩
+      have := default_none b f hnone r.cfg hin
+      rw [hdef] at this; cases this
+    · intro hno
+      cases hd : b.default f with
+      | none => rfl
+      | some c =>
+        obtain ⟨hin, hdef⟩ := default_spec b f c hd
+        obtain ⟨hok, hfam, h | ⟨rfl, _⟩⟩ := (hmem f c).mp hin
+        · obtain ⟨r, hr, rfl⟩ := h
+          exact absurd ⟨hfam, hdef, hok⟩ (hno r hr)
+        · simp [builtinCfg] at hdef
+  · intro hcase dst scope hfam hlt hroute
+    have hspec := nosrc_longest_prefix b hwf dst scope
+    rw [hroute] at hspec
+    simp only at hspec
+    obtain ⟨hnv, hnd⟩ := hspec
+    rw [hfam] at hnv hnd
+    rcases hcase with ⟨hu, hok⟩ | ⟨r, hr, hrf, hrd, hrok⟩
+    · have hin : builtinCfg f (okOf f ok4 ok6) ∈ b.list f :=
+        (hmem f _).mpr ⟨by simpa [builtinCfg] using hok, by simp [builtinCfg], Or.inr ⟨rfl, hu⟩⟩
+      have hv := hnv _ hin
+      have : validSend (builtinCfg f (okOf f ok4 ok6)) none dst scope = true := by
+        simp only [validSend, builtinCfg, contains, Nat.sub_zero, Bool.and_eq_true, beq_iff_eq,
+          Bool.or_eq_true]
+        refine ⟨hfam.symm, Or.inl ?_⟩
+        rw [Nat.div_eq_of_lt hlt]; simp
+      rw [this] at hv; cases hv
+    · have hin : r.cfg ∈ b.list f := (hmem f r.cfg).mpr ⟨hrok, hrf, Or.inl ⟨r, hr, rfl⟩⟩
+      have := hnd _ hin
+      rw [hrd] at this; cases this
+
+/-- **user_socket_not_shadowed** — the implicit wildcard never takes traffic from a user socket
+with a real subnet: if a bound user socket with prefix length ≥ 1 contains the destination (or is
+on its scope), a datagram without source address goes to a user socket whose prefix is at least
+as long — never to the built-in wildcard. -/
+theorem user_socket_not_shadowed (ok4 ok6 : Bool) (rs : List BReq)
+    (hacc : C20.accepts (rs.map (·.req)) = true) (b : Bound)
+    (hb : transportsBind (builderTransports ok4 ok6 rs) = .ok b)
+    (r : BReq) (hr : r ∈ rs) (hok : r.bindOk = true) (hp : 1 ≤ r.req.prefixLen)
+    (dst : Ip) (scope : Nat) (hv : validSend r.cfg none dst scope = true) :
+    ∃ c, route b none dst scope = some c ∧ r.req.prefixLen ≤ c.prefixLen ∧ ∃ r' ∈ rs, c = r'.cfg := by
+  obtain ⟨hwf, hmem, _⟩ := (builder_to_sockets ok4 ok6 rs hacc).2 b hb
+  have hfam : r.cfg.fam = dst.fam := by
+    simp only [validSend, Bool.and_eq_true, beq_iff_eq] at hv; exact hv.1
+  have hin : r.cfg ∈ b.list dst.fam := (hmem dst.fam r.cfg).mpr ⟨hok, hfam, Or.inl ⟨r, hr, rfl⟩⟩
+  have hspec := nosrc_longest_prefix b hwf dst scope
+  cases hroute : route b none dst scope with
+  | none =>
+    rw [hroute] at hspec
+    have := hspec.1 _ hin
+    rw [hv] at this; cases this
+  | some c =>
+    rw [hroute] at hspec
+    simp only at hspec
+    rcases hspec with ⟨hcin, _, hmax⟩ | ⟨hnv, _⟩
+    · have hle : r.req.prefixLen ≤ c.prefixLen := hmax _ hin hv
+      refine ⟨c, rfl, hle, ?_⟩
+      obtain ⟨_, _, h | ⟨rfl, _⟩⟩ := (hmem dst.fam c).mp hcin
+      · exact h
+      · simp [builtinCfg] at hle; omega
+    · have := hnv _ hin
+      rw [hv] at this; cases this
+
+/-- The sort the model assumes is the one the source asks for (`Reverse(prefix_len)`), and the
+built-in wildcard transports are not default routes (`is_default: false`). -/
 theorem source_anchors :
-    Generated.C19.sortV4Descending = 1 ∧ Generated.C19.sortV6Descending = 1 := ⟨rfl, rfl⟩
+    Generated.C19.sortV4Descending = 1 ∧ Generated.C19.sortV6Descending = 1 ∧
+    Generated.C19.builtinV4IsDefault = 0 ∧ Generated.C19.builtinV6IsDefault = 0 := ⟨rfl, rfl, rfl, rfl⟩
 
 /-! ### Non-vacuity -/
 
@@ -347,5 +564,27 @@ example :
     route ⟨[], [⟨.v6, 0x20010db8000000000000000000000001, 64, 3, false, true, true, 0⟩,
                 ⟨.v6, 0, 0, 0, true, true, true, 1⟩]⟩ none ⟨.v6, 0xfe800000000000000000000000000001⟩ 3
       = some ⟨.v6, 0x20010db8000000000000000000000001, 64, 3, false, true, true, 0⟩ := by decide
+
+/-- The builder path on a concrete accepted request list: a /24 socket and a user default route
+(/16, flag set) — the IPv4 wildcard is suppressed, the IPv6 one stays. -/
+example :
+    C20.accepts (([⟨⟨.v4, 24, none, true⟩, 0x0a000001, 0, true, 0⟩,
+                   ⟨⟨.v4, 16, some true, true⟩, 0xc0a80001, 0, true, 1⟩] : List BReq).map (·.req)) = true ∧
+    transportsBind (builderTransports true true
+        [⟨⟨.v4, 24, none, true⟩, 0x0a000001, 0, true, 0⟩, ⟨⟨.v4, 16, some true, true⟩, 0xc0a80001, 0, true, 1⟩])
+      = .ok ⟨[⟨.v4, 0x0a000001, 24, 0, false, true, true, 0⟩, ⟨.v4, 0xc0a80001, 16, 0, true, true, true, 1⟩],
+             [builtinCfg .v6 true]⟩ := by
+  constructor
+  · decide
+  · simp [transportsBind, ipConfigs, builderTransports, hasUserDefaultT, builtinCfg, BReq.cfg, famOf,
+      C20.Req.isDefaultRoute, bind, bindLoop, sortDesc, insertDesc]
+
+/-- Documented tie: a user socket with prefix 0 that is explicitly NOT a default route sits behind
+the built-in wildcard (also prefix 0, configured first) and gets no source-less traffic. -/
+example :
+    transportsBind (builderTransports true true [⟨⟨.v4, 0, some false, true⟩, 0x0a000001, 0, true, 0⟩])
+      = .ok ⟨[builtinCfg .v4 true, ⟨.v4, 0x0a000001, 0, 0, false, true, true, 0⟩], [builtinCfg .v6 true]⟩ := by
+  simp [transportsBind, ipConfigs, builderTransports, hasUserDefaultT, builtinCfg, BReq.cfg, famOf,
+    C20.Req.isDefaultRoute, bind, bindLoop, sortDesc, insertDesc]
 
 end IrohModel.C19
